@@ -264,6 +264,34 @@ PROPS = {
             'NetworkResourceService.on_create_request/on_delete_request/synchronize are not under contract',
         ],
     },
+    'C17': {
+        'contract_modules': ['c17_presence'],
+        'functions': ['treadmill.services.presence_service:PresenceResourceService._safe_create',
+                      'treadmill.services.presence_service:PresenceResourceService._safe_delete',
+                      'treadmill.services.presence_service:PresenceResourceService.on_create_request',
+                      'treadmill.services.presence_service:PresenceResourceService.on_delete_request'],
+        'replay': 'c17.py',
+        'assumptions': [
+            'REQUEST-GRANULAR: every clause is proved for an arbitrary ZooKeeper store at the start of one request, so any '
+            'interleaving of whole requests of two sessions (and session expiry between requests) is covered; another '
+            'session acting between the read (get_with_metadata) and the write (update / ensure_deleted) inside one '
+            'request is NOT covered (ZooKeeper offers no compare-owner-and-delete; the real code has the same window)',
+            'ZooKeeper dependency contracts (assumed): zkutils.create fails with NodeExistsError iff the node exists and '
+            'makes an ephemeral node owned by the creating session; get_with_metadata returns content and owner session '
+            'or raises NoNodeError; update changes the content only; ensure_deleted removes the node (children of '
+            'presence nodes do not exist); all leave every other path alone',
+            '"it waits for the node to go away": _watch installs a DataWatch that re-queues the request and the request '
+            'returns None - the waiting itself (liveness) is not stated; _watch and the inherited retry_request are '
+            'assumed to have no effect on the store',
+            'appcfg.app_name (instance name of a unique container name) and zknamespace.path.* are functions of their '
+            'arguments; node payloads and ACLs are opaque tokens (equal values => equal tokens); the client session id '
+            'is positive; PresenceResourceService.zkclient is the process-wide client',
+            'the first sentence of the statement (ephemeral nodes of its own session) is a call-site clause at '
+            'zkutils.create (ephemeral=True) plus the dependency contract; the second (never modify/delete a foreign '
+            'node) is foreign_untouched on all four functions plus call-site clauses at update / ensure_deleted; the '
+            'third (delete only what was registered for that container) is only_registered_for_this / others_kept',
+        ],
+    },
     'C19': {
         'contract_modules': ['c19_allocation_api'],
         'functions': ['treadmill.api.allocation:_check_limit', 'treadmill.api.allocation:_calc_free',
